@@ -56,7 +56,7 @@ def gen_cases(chk):
         for ty, w in ((0, 32), (1, 64), (4, 16), (5, 16)):
             vals = [rng.getrandbits(w) for _ in range(n)]
             tr.append("tr %x %s %s" % (ty, tup5(t), ",".join("%x" % v for v in vals)))
-    eshapes = [(64,), (500,), (21,), (10, 30), (4, 30), (30, 4), (33, 17), (8, 9, 10), (5, 17, 6), (3, 4, 5, 6), (2, 7, 3, 11), (1, 40), (40, 1, 3)]
+    eshapes = [(64,), (500,), (21,), (10, 30), (4, 30), (30, 4), (33, 17), (8, 9, 10), (5, 17, 6), (3, 4, 5, 6), (2, 7, 3, 11), (1, 40), (40, 1, 3), (1, 3, 13), (3, 13, 1), (2, 1, 8, 13)]
     if thorough:
         for _ in range(60):
             k = rng.randrange(1, 5)
